@@ -60,7 +60,7 @@ def fit(rng, w, width):
 
 def make_design(rng, n_ops=None, wide_prob=0.15, allow_mem=True, allow_rom=True,
                 allow_reg=True, max_width=None, ops_subset=None, probe_all=False,
-                name_prefix=''):
+                name_prefix='', sparse_rom_prob=0.0):
     pyrtl.reset_working_block()
     block = pyrtl.working_block()
     d = Design(block)
@@ -100,12 +100,27 @@ def make_design(rng, n_ops=None, wide_prob=0.15, allow_mem=True, allow_rom=True,
             mems.append(m)
     roms = []
     if allow_rom:
-        for i in range(rng.choice([0, 0, 0, 1])):
+        for i in range(rng.choice([0, 0, 0, 1]) if not sparse_rom_prob else rng.choice([0, 1, 1, 2])):
             aw = rng.randint(1, 4)
             bw = min(W(), 70)
             vals = [boundary_value(rng, bw) for _ in range(1 << aw)]
             kind = rng.choice(['list', 'dict', 'func'])
-            if kind == 'list':
+            pad = False
+            if sparse_rom_prob and rng.random() < sparse_rom_prob and kind != 'func' and aw >= 2:
+                # partially populated ROM read through pad_with_zeros (sparse dict with keys
+                # beyond len(dict), or a list shorter than the address space)
+                pad = True
+                if kind == 'list':
+                    keep = rng.randint(1, (1 << aw) - 1)
+                    vals = vals[:keep] + [0] * ((1 << aw) - keep)
+                    data = list(vals[:keep])
+                else:
+                    keys = sorted(rng.sample(range(1 << aw), rng.randint(1, max(1, (1 << aw) // 2))))
+                    if (1 << aw) - 1 not in keys and rng.random() < 0.7:
+                        keys.append((1 << aw) - 1)
+                    data = {a: (vals[a] or 1) for a in keys}
+                    vals = [data.get(a, 0) for a in range(1 << aw)]
+            elif kind == 'list':
                 data = list(vals)
             elif kind == 'dict':
                 data = {a: v for a, v in enumerate(vals)}
@@ -113,7 +128,7 @@ def make_design(rng, n_ops=None, wide_prob=0.15, allow_mem=True, allow_rom=True,
                 data = (lambda vs: (lambda a: vs[a]))(vals)
             rom = pyrtl.RomBlock(bitwidth=bw, addrwidth=aw, romdata=data,
                                  name=name_prefix + 'rom%d' % i, max_read_ports=None,
-                                 asynchronous=True)
+                                 asynchronous=True, pad_with_zeros=pad)
             rom._verif_table = list(vals)
             d.roms.append(rom)
             roms.append(rom)
